@@ -12,9 +12,30 @@ import (
 	"github.com/bmeg/grip/kvindex"
 	"github.com/bmeg/grip/log"
 	"google.golang.org/protobuf/proto"
+	"google.golang.org/protobuf/types/known/structpb"
 
 	multierror "github.com/hashicorp/go-multierror"
 )
+
+// toVertex and toEdge convert an element to its stored form. Data that the
+// stored form cannot represent (keys or strings that are not valid UTF-8,
+// values of unsupported types) is an error: the element is refused, not
+// written without its data.
+func toVertex(v *gdbi.Vertex) (*gripql.Vertex, error) {
+	data, err := structpb.NewStruct(v.Data)
+	if err != nil {
+		return nil, fmt.Errorf("vertex '%s': data cannot be stored: %v", v.ID, err)
+	}
+	return &gripql.Vertex{Gid: v.ID, Label: v.Label, Data: data}, nil
+}
+
+func toEdge(e *gdbi.Edge) (*gripql.Edge, error) {
+	data, err := structpb.NewStruct(e.Data)
+	if err != nil {
+		return nil, fmt.Errorf("edge '%s': data cannot be stored: %v", e.ID, err)
+	}
+	return &gripql.Edge{Gid: e.ID, Label: e.Label, From: e.From, To: e.To, Data: data}, nil
+}
 
 func contains(a []string, v string) bool {
 	for _, i := range a {
@@ -50,7 +71,11 @@ func (kgdb *KVInterfaceGDB) AddVertex(vertices []*gdbi.Vertex) error {
 	err := kgdb.kvg.kv.BulkWrite(func(tx kvi.KVBulkWrite) error {
 		var bulkErr *multierror.Error
 		for _, vert := range vertices {
-			v := vert.ToVertex()
+			v, err := toVertex(vert)
+			if err != nil {
+				bulkErr = multierror.Append(bulkErr, err)
+				continue
+			}
 			if v.Validate() == nil {
 				labels.note(kgdb, v.Gid, v.Label)
 			}
@@ -79,7 +104,7 @@ func insertVertex(tx kvi.KVBulkWrite, idx *kvindex.KVIndex, graph string, vertex
 	key := VertexKey(graph, vertex.Gid)
 	value, err := proto.Marshal(vertex)
 	if err != nil {
-		return nil
+		return fmt.Errorf("AddVertex Error %s", err)
 	}
 	doc := map[string]interface{}{graph: vertexIdxStruct(vertex)}
 	if err := tx.Set(key, value); err != nil {
@@ -211,7 +236,12 @@ func (kgdb *KVInterfaceGDB) AddEdge(edges []*gdbi.Edge) error {
 	err := kgdb.kvg.kv.BulkWrite(func(tx kvi.KVBulkWrite) error {
 		var bulkErr *multierror.Error
 		for _, edge := range edges {
-			if ekey, err := insertEdge(tx, kgdb.kvg.idx, kgdb.graph, edge.ToEdge()); err != nil {
+			e, err := toEdge(edge)
+			if err != nil {
+				bulkErr = multierror.Append(bulkErr, err)
+				continue
+			}
+			if ekey, err := insertEdge(tx, kgdb.kvg.idx, kgdb.graph, e); err != nil {
 				bulkErr = multierror.Append(bulkErr, err)
 			} else {
 				written[edge.ID] = ekey
@@ -240,8 +270,11 @@ func (kgdb *KVInterfaceGDB) BulkAdd(stream <-chan *gdbi.GraphElement) error {
 		var bulkErr *multierror.Error
 		for elem := range stream {
 			if elem.Vertex != nil {
-				vertex := elem.Vertex.ToVertex()
-				if err := vertex.Validate(); err != nil {
+				vertex, err := toVertex(elem.Vertex)
+				if err == nil {
+					err = vertex.Validate()
+				}
+				if err != nil {
 					invalid = multierror.Append(invalid, err)
 					continue
 				}
@@ -254,8 +287,11 @@ func (kgdb *KVInterfaceGDB) BulkAdd(stream <-chan *gdbi.GraphElement) error {
 				continue
 			}
 			if elem.Edge != nil {
-				edge := elem.Edge.ToEdge()
-				if err := edge.Validate(); err != nil {
+				edge, err := toEdge(elem.Edge)
+				if err == nil {
+					err = edge.Validate()
+				}
+				if err != nil {
 					invalid = multierror.Append(invalid, err)
 					continue
 				}
